@@ -192,5 +192,5 @@ ValsLive == {"ident", "int", "bool_t", "str_preds"}
 ContextsQuickAll == ContextsQuick \cup ContextsInto \cup ContextsAlone
 
 ValsQuick == {"bool_t", "bool_f", "ident", "str_ident", "str_empty", "int", "negint", "path2", "preds", "str_preds", "star", "call",
-              "hexint", "bigint", "rawstr_ident", "bytestr", "str_2idents", "rawident", "macro_call"}
+              "hexint", "bigint", "rawstr_ident", "bytestr", "str_2idents", "rawident", "macro_call", "str_ws_ident", "str_rawident"}
 =============================================================================
